@@ -92,7 +92,7 @@ theorem q_clearQueue (s : Sess) : Q 0 s (s.setToSend []) := by
 /-! ## sending -/
 
 theorem q_prep (s : Sess) (m : OutMsg) : Q 0 s (prep s m).2 := by
-  unfold prep
+  unfold prep prepCore
   simp only []
   split
   · split
@@ -102,14 +102,20 @@ theorem q_prep (s : Sess) (m : OutMsg) : Q 0 s (prep s m).2 := by
     · exact Q.refl s
     · exact q_persistOut _ _ _
 
-theorem prep_kind (s : Sess) (m m' : OutMsg) (h : (prep s m).1 = some m') : m'.kind = m.kind := by
-  unfold prep at h
+theorem prepCore_kind (s : Sess) (m m' : OutMsg) (h : (prepCore s m).1 = some m') : m'.kind = m.kind := by
+  unfold prepCore at h
   simp only [] at h
   split at h
   · split at h <;> (simp only [Option.some.injEq] at h; subst h; rfl)
   · split at h
     · cases h
     · simp only [Option.some.injEq] at h; subst h; rfl
+
+theorem prep_kind (s : Sess) (m m' : OutMsg) (h : (prep s m).1 = some m') : m'.kind = m.kind := by
+  rw [prepCore_kind s (stamp s m) m' h, stamp_kind]
+
+theorem rrK_asNew (m : OutMsg) : rrK m.asNew = rrK m := rfl
+theorem rrK_re (o : OutMsg) (m : InMsg) : rrK (o.inReplyTo m) = rrK o := rfl
 
 theorem prep_isRR (s : Sess) (m m' : OutMsg) (h : (prep s m).1 = some m') : isRR m' = isRR m := by
   unfold isRR; rw [prep_kind s m m' h]
@@ -132,7 +138,7 @@ theorem q_queueForSend (s : Sess) (m : OutMsg) : Q (rrK m) s (queueForSend s m) 
 theorem q_sendInReplyTo (s : Sess) (m : OutMsg) : Q (rrK m) s (sendInReplyTo s m) := by
   unfold sendInReplyTo
   split
-  · exact q_queueForSend s m
+  · exact q_queueForSend s m.asNew
   · have hp := q_prep s m
     have hk := prep_isRR s m
     generalize prep s m = r at hp hk
@@ -182,12 +188,13 @@ theorem rrK_rejectMsg (cfg : Cfg) (m : InMsg) (r : Nat) (t : Option Nat) (b : Bo
   simp [rrK, isRR_rejectMsg]
 
 theorem q_doReject (s : Sess) (m : InMsg) (r : Nat) (t : Option Nat) (b : Bool) : Q 0 s (doReject s m r t b) := by
-  have := q_sendInReplyTo s (rejectMsg s.cfg m r t b)
-  rw [rrK_rejectMsg] at this; exact this
+  have := q_sendInReplyTo s ((rejectMsg s.cfg m r t b).inReplyTo m)
+  rw [rrK_re, rrK_rejectMsg] at this; exact this
 
 theorem q_sendLogout (s : Sess) : Q 0 s (sendLogout s) := q_sendInReplyTo s (mkOut "5" [])
 theorem q_initiateLogout (s : Sess) : Q 0 s (initiateLogout s) := q_sendLogout s
 theorem q_sendLogonInReplyTo (s : Sess) (r : Bool) : Q 0 s (sendLogonInReplyTo s r) := q_dropAndSend s (logonMsg s r)
+theorem q_sendLogonRe (s : Sess) (r : Bool) (m : InMsg) : Q 0 s (sendLogonRe s r m) := q_dropAndSend s ((logonMsg s r).inReplyTo m)
 
 /-- the one place where a ResendRequest is created -/
 theorem q_sendResendRequest (s : Sess) (b e : Int) : Q 1 s (sendResendRequest s b e).1 := by
@@ -213,6 +220,8 @@ theorem peel_dropAndReset (h : Q k s x) : Q k s (dropAndReset x) := h.trans0 (q_
 theorem peel_storeReset (h : Q k s x) : Q k s x.storeReset := h.trans0 (q_storeReset x)
 theorem peel_sendQueued (h : Q k s x) : Q k s (sendQueued x) := h.trans0 (q_sendQueued x)
 theorem peel_sendLogonInReplyTo (r : Bool) (h : Q k s x) : Q k s (sendLogonInReplyTo x r) := h.trans0 (q_sendLogonInReplyTo x r)
+theorem peel_sendLogonRe (r : Bool) (m : InMsg) (h : Q k s x) : Q k s (sendLogonRe x r m) := h.trans0 (q_sendLogonRe x r m)
+theorem peel_setReplyLast (v : Option Int) (h : Q k s x) : Q k s (x.setReplyLast v) := h.trans0 (Q.of_eq rfl rfl rfl rfl rfl rfl rfl)
 theorem peel_emit (o : Obs) (hn : notWire o = true) (h : Q k s x) : Q k s (x.emit o) := h.trans0 (q_emit x o hn)
 theorem peel_setHb (hb : Int) (h : Q k s x) : Q k s (x.setHb hb) := h.trans0 (Q.of_eq rfl rfl rfl rfl rfl rfl rfl)
 theorem peel_setSentReset (b : Bool) (h : Q k s x) : Q k s (x.setSentReset b) := h.trans0 (Q.of_eq rfl rfl rfl rfl rfl rfl rfl)
@@ -235,6 +244,8 @@ macro_rules | `(tactic| q_step) => `(tactic| apply peel_dropAndReset)
 macro_rules | `(tactic| q_step) => `(tactic| apply peel_storeReset)
 macro_rules | `(tactic| q_step) => `(tactic| apply peel_sendQueued)
 macro_rules | `(tactic| q_step) => `(tactic| apply peel_sendLogonInReplyTo)
+macro_rules | `(tactic| q_step) => `(tactic| apply peel_sendLogonRe)
+macro_rules | `(tactic| q_step) => `(tactic| apply peel_setReplyLast)
 macro_rules | `(tactic| q_step) => `(tactic| apply peel_emit _ (by with_unfolding_all rfl))
 macro_rules | `(tactic| q_step) => `(tactic| apply peel_setHb)
 macro_rules | `(tactic| q_step) => `(tactic| apply peel_setSentReset)
@@ -530,7 +541,7 @@ theorem q_inSessionFixMsgIn (s : Sess) (m : InMsg) : Q (K s) s (inSessionFixMsgI
     obtain ⟨s', o⟩ := r
     refine Q.mono (j := 0) ?_ (Nat.zero_le _)
     cases o with
-    | some e => exact hl.trans0 (q_initiateLogout s')
+    | some e => exact hl.trans0 (by have := q_sendInReplyTo s' ((mkOut "5" []).inReplyTo m); exact this)
     | none => exact hl
   · split
     · exact (q_handleLogout s m).mono (Nat.zero_le _)
@@ -663,8 +674,8 @@ theorem processReject_high_rec (s : Sess) (m : InMsg) (n t : Int) (st : List (In
 
 theorem prep_admin (s : Sess) (m : OutMsg) (hk : isAdminKind m.kind = true) (hA : (m.kind == "A") = false) :
     prep s m = (some (numbered s m), s.persistOut s.store.sender (numbered s m)) := by
-  unfold prep numbered
-  simp only [hk, hA, if_true, Bool.false_and, Bool.false_eq_true, if_false]
+  unfold prep prepCore numbered
+  simp only [stamp_kind, hk, hA, if_true, Bool.false_and, Bool.false_eq_true, if_false]
 
 theorem sendInReplyTo_admin (s : Sess) (m : OutMsg) (hk : isAdminKind m.kind = true) (hA : (m.kind == "A") = false)
     (hl : s.st.loggedOn = true) :
@@ -977,7 +988,7 @@ theorem handleTestRequest_exact (s : Sess) (m : InMsg) (x : String)
     (hn : getInt m 34 = .val s.store.target) (hv : validate m = none) (hcb : callbackVerdict m = none)
     (hx : m.f.get? 112 = some x) :
     handleTestRequest s m =
-      (incrTarget (sendInReplyTo (s.emit (cbObs s m)) (mkOut "0" [(112, x)])), .inSession) := by
+      (incrTarget (sendInReplyTo (s.emit (cbObs s m)) ((mkOut "0" [(112, x)]).inReplyTo m)), .inSession) := by
   unfold handleTestRequest
   rw [verifySelect_exact s m true hb hc ht hn]
   simp only [if_true, verifyAppImpl_clean s m hv, hcb, hx]
@@ -988,7 +999,7 @@ theorem inSessionFixMsgIn_testRequest (s : Sess) (m : InMsg) (x : String) (hk : 
     (hn : getInt m 34 = .val s.store.target) (hv : validate m = none) (hcb : callbackVerdict m = none)
     (hx : m.f.get? 112 = some x) :
     inSessionFixMsgIn s m =
-      (incrTarget (sendInReplyTo (s.emit (.fromAdmin "1" (seqText m))) (mkOut "0" [(112, x)])), .inSession) := by
+      (incrTarget (sendInReplyTo (s.emit (.fromAdmin "1" (seqText m))) ((mkOut "0" [(112, x)]).inReplyTo m)), .inSession) := by
   unfold inSessionFixMsgIn
   have e := handleTestRequest_exact s m x hb hc ht hn hv hcb hx
   have ecb : cbObs s m = .fromAdmin "1" (seqText m) := by simp [cbObs, hk, isAdminKind]
@@ -1078,16 +1089,25 @@ theorem kept_persistOut (s : Sess) (q : Int) (m : OutMsg) : Kept s (s.persistOut
 theorem kept_sendQueued (s : Sess) : Kept s (sendQueued s) := by
   unfold sendQueued; split <;> exact ⟨rfl, rfl, rfl⟩
 
-theorem kept_sendLogonInReplyTo_noReset (s : Sess) : Kept s (sendLogonInReplyTo s false) := by
-  unfold sendLogonInReplyTo dropAndSend prep
-  simp only [logonMsg_noReset s]
-  have hk : isAdminKind (logonMsg s false).kind = true := rfl
-  simp only [hk, if_true, Bool.false_eq_true, if_false]
-  generalize ({ kind := (logonMsg s false).kind, seq := s.store.sender, f := (logonMsg s false).f } : OutMsg) = om
+/-- `dropAndSend` of a message for which the Logon-reset branch of `prepMessageForSend` is not taken -/
+theorem kept_dropAndSend_noReset (s : Sess) (m : OutMsg) (hk : isAdminKind m.kind = true)
+    (hn : (m.kind == "A" && m.f.get? 141 == some "Y") = false) : Kept s (dropAndSend s m) := by
+  have hk' : isAdminKind (stamp s m).kind = true := by rw [stamp_kind]; exact hk
+  have hn' : ((stamp s m).kind == "A" && (stamp s m).f.get? 141 == some "Y") = false := by rw [stamp_kind, stamp_f]; exact hn
+  unfold dropAndSend prep prepCore
+  generalize stamp s m = sm at hk' hn'
+  simp only [hn', hk', if_true, Bool.false_eq_true, if_false]
+  generalize ({ sm with seq := s.store.sender } : OutMsg) = om
   have h1 := kept_persistOut s s.store.sender om
   generalize s.persistOut s.store.sender om = sp at h1 ⊢
   have h2 : Kept sp (sp.setToSend [om]) := ⟨rfl, rfl, rfl⟩
   exact (h1.trans h2).trans (kept_sendQueued _)
+
+theorem kept_sendLogonInReplyTo_noReset (s : Sess) : Kept s (sendLogonInReplyTo s false) :=
+  kept_dropAndSend_noReset s _ rfl (logonMsg_noReset s)
+
+theorem kept_sendLogonRe_noReset (s : Sess) (m : InMsg) : Kept s (sendLogonRe s false m) :=
+  kept_dropAndSend_noReset s _ rfl (logonMsg_noReset s)
 
 theorem kept_logonReply_noReset (s : Sess) (m : InMsg) : Kept s (logonReply s m false) := by
   unfold logonReply
@@ -1095,9 +1115,9 @@ theorem kept_logonReply_noReset (s : Sess) (m : InMsg) : Kept s (logonReply s m 
   · split
     · split
       · rename_i h' _
-        exact Kept.trans (b := s.setHb h') ⟨rfl, rfl, rfl⟩ (kept_sendLogonInReplyTo_noReset _)
-      · exact kept_sendLogonInReplyTo_noReset _
-    · exact kept_sendLogonInReplyTo_noReset _
+        exact Kept.trans (b := s.setHb h') ⟨rfl, rfl, rfl⟩ (kept_sendLogonRe_noReset _ m)
+      · exact kept_sendLogonRe_noReset _ m
+    · exact kept_sendLogonRe_noReset _ m
   · exact Kept.refl s
 
 theorem checks_congr {s s' : Sess} (h : Kept s s') (m : InMsg) :
@@ -1379,7 +1399,7 @@ theorem callbacks_foldl_deliver (ms : List InMsg) (s : Sess) :
 
 /-! ## every event: ResendRequests are created only in reaction to inbound messages -/
 
-theorem q_shutdownWithReason (s : Sess) (incr : Bool) : Q 0 s (shutdownWithReason s incr).1 := by
+theorem q_shutdownWithReason (s : Sess) (m : InMsg) (incr : Bool) : Q 0 s (shutdownWithReason s m incr).1 := by
   unfold shutdownWithReason
   dsimp only
   q_peel
@@ -1396,7 +1416,7 @@ theorem q_logonFixMsgIn (s : Sess) (m : InMsg) : Q 1 s (logonFixMsgIn s m).1 := 
     all_goals (try dsimp only)
     all_goals first
       | (rename_i heq; cases heq; exact hl.mono (Nat.zero_le _))
-      | (rename_i heq; cases heq; exact (hl.trans0 (q_shutdownWithReason _ _)).mono (Nat.zero_le _))
+      | (rename_i heq; cases heq; exact (hl.trans0 (q_shutdownWithReason _ m _)).mono (Nat.zero_le _))
       | (rename_i heq; cases heq; simpa using hl.trans (q_sendResendRequest _ _ _))
       | skip
 
@@ -1615,6 +1635,16 @@ theorem noNew_incoming_none (fuel : Nat) (s : Sess) (hi : s.inbox = []) : NoNew 
     · exact h0
     · exact h0.trans (noNew_emit s0 (.armPeer (1200 * s0.hb)) rfl)
 
+theorem q_checkResetTime (s : Sess) (now : Int) : Q 0 s (checkResetTime s now) := by
+  have hset : ∀ x : Sess, Q 0 x (x.setLastChecked now) := fun x => Q.of_eq rfl rfl rfl rfl rfl rfl rfl
+  unfold checkResetTime
+  repeat' split
+  all_goals (try dsimp only)
+  all_goals first
+    | exact Q.refl _
+    | exact hset _
+    | exact (q_sendLogonInReplyTo _ _).trans0 (hset _)
+
 /-- **every event, every state** (nothing buffered in the inbound channel, fixed code): the number of ResendRequests
     written or queued grows by at most the event's budget; the buffer stays empty unless the event is an arrival -/
 theorem grow_stepCore (s : Sess) (e : Ev) (hi : s.inbox = []) (hfix : s.cfg.lookThroughPending = true)
@@ -1673,6 +1703,7 @@ theorem grow_stepCore (s : Sess) (e : Ev) (hi : s.inbox = []) (hfix : s.cfg.look
     · exact (h0.trans (q_sendQueued s0).noNew).grow _
     · exact (h0.trans (q_clearQueue s0).noNew).grow _
   | sessionTime r sm => exact (noNew_checkSessionTime _ s r sm hi).grow _
+  | resetTime now => exact (q_checkResetTime s now).noNew.grow _
 
 theorem rrAfter_le (s : Sess) (e : Ev) (hi : s.inbox = []) (hfix : s.cfg.lookThroughPending = true) (hna : ∀ m, e ≠ .arrive m) :
     rrAfter (step s e) ≤ s.toSend.countP isRR + evBudget s e := by
